@@ -160,6 +160,7 @@ type report struct {
 	judgedOnObserved            int
 	distinct                    *vtrace.Distinct
 	sigs                        map[string]int
+	codes                       map[string]int // failure codes returned by the scripted callees
 }
 
 func newWorld(first vtrace.Step, rep *report) *world {
@@ -303,7 +304,7 @@ func (w *world) checkWant(st vtrace.Step, got proj, via string, depth int, wrote
 		if w.rep.sigs[sig] > 1 {
 			return
 		}
-		vtrace.Violation("C40", sig, fmt.Sprintf("behaviour %d step %d (%s %v, nesting depth %d): %s", w.bi, w.pos-1, st.A, st.In, depth, what),
+		vtrace.Violation("C40", sig, fmt.Sprintf("behaviour %d step %d (%s %v%s, nesting depth %d): %s", w.bi, w.pos-1, st.A, st.In, codeName(st), depth, what),
 			M{"behaviour": append([]vtrace.Step{}, w.stepsWithNew()...), "step": w.pos, "observed": got, "want": want})
 	}
 	storOK := true
@@ -355,6 +356,13 @@ func (w *world) checkWant(st vtrace.Step, got proj, via string, depth int, wrote
 	}
 	_ = sent
 	report("output-accounts-changed-by-failed-inner-call", "the caller's output accounts are not the pre-call accounts: "+what)
+}
+
+func codeName(st vtrace.Step) string {
+	if c, ok := st.In["code"]; ok {
+		return " = " + vmcommon.ReturnCode(vtrace.Int(c)).String()
+	}
+	return ""
 }
 
 func (w *world) stepsWithNew() []vtrace.Step { return w.steps }
@@ -487,10 +495,12 @@ func (w *world) run(entered bool) vmcommon.ReturnCode {
 			}
 		case "Return":
 			w.ret = &w.steps[w.pos-1]
-			if st.In["ok"].(bool) {
-				return vmcommon.Ok
+			// the failure code is chosen by TLC: any vmcommon.ReturnCode other than Ok is "the inner call failed"
+			code := vmcommon.ReturnCode(vtrace.Int(st.In["code"]))
+			if code != vmcommon.Ok {
+				w.rep.codes[code.String()]++
 			}
-			return vmcommon.UserError
+			return code
 		default:
 			panic("unknown action " + st.A)
 		}
@@ -504,7 +514,7 @@ func replay(path string) {
 		vtrace.Broken(err.Error())
 		return
 	}
-	rep := &report{distinct: vtrace.NewDistinct(), sigs: map[string]int{}}
+	rep := &report{distinct: vtrace.NewDistinct(), sigs: map[string]int{}, codes: map[string]int{}}
 	nontrivial := 0
 	for bi, b := range bs {
 		if len(b) == 0 || b[0].A != "New" {
@@ -550,4 +560,10 @@ func replay(path string) {
 	}
 	sort.Strings(sigs)
 	vtrace.Stat("signatures", sigs)
+	cl := []string{}
+	for c, n := range rep.codes {
+		cl = append(cl, fmt.Sprintf("%s x%d", c, n))
+	}
+	sort.Strings(cl)
+	vtrace.Stat("failure_codes", cl)
 }
